@@ -149,12 +149,14 @@ Qed.
 
 Theorem agreement ck sk seeded o x p :
   ems_valid (k_cfg sk) -> negotiate_conn ck sk seeded = Ok o ->
-  exists h f, pion_hello ck h /\ mirrored (client_view h o x) (server_view h f x p).
+  exists h f ss, pion_hello ck h /\
+    (server13 sk ss h = ROk f \/ server12 sk ss h seeded = ROk f) /\     (* f is the flight the server built on h *)
+    mirrored (client_view h o x) (server_view h f x p).
 Proof.
   intros Hv H. apply negotiate_conn_inv in H.
   destruct H as [h [v [ss [Hh [_ [_ Hcase]]]]]]. apply hello_kind_weaken in Hh.
   exists h.
-  destruct Hcase as [[_ [f [Hf H]]]|[_ [f [Hf H]]]]; exists f; (split; [exact Hh|]).
+  destruct Hcase as [[_ [f [Hf H]]]|[_ [f [Hf H]]]]; exists f, ss; (split; [exact Hh|]); (split; [auto|]).
   - unfold client_tail13 in H. cbv zeta in H.
     apply lift_ok in H. destruct H as [cv [_ H]].
     destruct (nonempty (filter_for_version v13 (k_suites ck))); cbn [negb] in H; [|discriminate].
